@@ -553,16 +553,24 @@ func c10Oracle(r *rand.Rand, rep *runReport, n int, cw *caseWriter, nextID *int)
 }
 
 // c10ColumnMoved: known-finding class C10-directive-column — the replacement changed the byte length of the excluded text
-// in front of an ignore/line (or ignore/file) directive, so the surviving comment starts in another column.
+// in front of an ignore/line (or ignore/file) directive, so the surviving comment starts in another column, AND the line
+// directly above or below that directive carries a comment in one of the two files (yaml.v3 groups adjacent comment lines and
+// attaches the group by column: only then can the column of the directive comment decide where a neighbouring pint
+// comment ends up). A moved directive without a comment next to it is NOT in the class.
 func c10ColumnMoved(a, b string) bool {
 	ca, cb := c10Chunks([]byte(a)), c10Chunks([]byte(b))
+	hasComment := func(cs []string, i int) bool {
+		return i >= 0 && i < len(cs) && strings.IndexByte(cs[i], '#') >= 0
+	}
 	for i := 0; i < len(ca) && i < len(cb); i++ {
 		x, y := c10LineComment(i+1, ca[i]), c10LineComment(i+1, cb[i])
 		if x == nil || y == nil || x.Type != y.Type {
 			continue
 		}
 		if (x.Type == comments.IgnoreLineType || x.Type == comments.IgnoreFileType) && x.Offset != y.Offset {
-			return true
+			if hasComment(ca, i-1) || hasComment(ca, i+1) || hasComment(cb, i-1) || hasComment(cb, i+1) {
+				return true
+			}
 		}
 	}
 	return false
